@@ -167,7 +167,7 @@ def model_comparison(grammar, code, cls, maxlen):
             continue
         if ans != want:
             bad.append({"rule": rule, "tokens": list(toks), "generated_parser": repr(a), "lean_model_of_generated_code": ans})
-    return {"requests": len(reqs), "undecided": undecided, "bad": bad, "nofalsy": "nofalsy=true" in facts, "plain": "plain=true" in facts}
+    return {"requests": len(reqs), "undecided": undecided, "bad": bad, "nofalsy": "nofalsy=true" in facts, "plain": "plain=true" in facts, "pure": "pure=true" in facts}
 
 
 def _kinds(it):
@@ -402,6 +402,7 @@ def run(rep, tier, pool, variants=("shipped",)):
             model_stats["undecided"] += m.get("undecided", 0)
             model_stats["no_falsy_actions"] = model_stats.get("no_falsy_actions", 0) + (1 if m.get("nofalsy") else 0)
             model_stats["plain_fragment"] = model_stats.get("plain_fragment", 0) + (1 if m.get("plain") else 0)
+            model_stats["pure_fragment"] = model_stats.get("pure_fragment", 0) + (1 if m.get("pure") else 0)
         elif m.get("skipped"):
             model_stats["skipped"] += 1
             rep.count("model-skipped:" + str(m["skipped"])[:40])
